@@ -21,6 +21,9 @@ def run(model, rep, tier):
     c07.r10_report_only_after_completed_run(ctx, rep, R='C02.R8')
     accumulators_never_discarded(ctx, rep, 'C02.R9')
     accumulator_roles_through_calls(ctx, rep, 'C02.R3')
+    from . import lifetime
+    rep.rule('C02.R10', "each run sees only its own inputs (rules/lifetime.py): no function of the package is memoised across runs (functools.lru_cache / cache), module-level containers that functions add to are emptied at the start of a run, no mutable class attribute is shared through instances (mutated in place or handed out without being re-bound per instance), and no option with a mutable argparse default is mutated in place after parsing -- a second run in the same process (other layer objects under the same names, other outcomes, other filters) must not inherit the first run's state")
+    lifetime.check(ctx, rep, 'C02.R10')
     rep.units['cfg'] = ctx.cfg_stats
 
 
